@@ -60,11 +60,59 @@ func (ex *Exec) strBytes(v Value) []Value {
 	case *SymStr:
 		return s.b
 	case *VStr:
-		return ex.strBytes(ex.concretizeVStr(s))
+		return ex.vstrBytes(s)
 	case *Opaque:
 		panic(ex.unsupported("content of opaque string needed (" + s.why + ")"))
 	}
 	panic(ex.unsupported(fmt.Sprintf("strBytes of %T", v)))
+}
+
+// vstrBytes turns a symbolic choice of strings into symbolic bytes, forking only on the length.
+func (ex *Exec) vstrBytes(v *VStr) []Value {
+	ts := ex.ts
+	n := 0
+	switch l := ex.strLenV(v).(type) {
+	case int64:
+		n = int(l)
+	case *Term:
+		n = int(ex.concretize(l))
+	}
+	out := make([]Value, n)
+	for off := 0; off < n; off++ {
+		groups := map[byte][]int{}
+		var order []byte
+		for j, e := range v.table {
+			if len(e) != n {
+				continue
+			}
+			b := e[off]
+			if _, seen := groups[b]; !seen {
+				order = append(order, b)
+			}
+			groups[b] = append(groups[b], j)
+		}
+		if len(order) == 0 {
+			panic(pathEnd{kind: "infeasible", msg: "vstr length without entries"})
+		}
+		def := order[0]
+		for _, b := range order {
+			if len(groups[b]) > len(groups[def]) {
+				def = b
+			}
+		}
+		t := ts.Const(uint64(def), 8)
+		for _, b := range order {
+			if b == def {
+				continue
+			}
+			t = ts.Ite(ex.selIn(v.sel, groups[b]), ts.Const(uint64(b), 8), t)
+		}
+		if len(ex.fixed) > 0 && t.vars.intersects(ex.fixedSet) {
+			t = ts.Subst(t, ex.fixed, ex.fixedSet, map[*Term]*Term{})
+		}
+		out[off] = ex.simp(t)
+	}
+	return out
 }
 
 func (ex *Exec) strLen(v Value) int {
@@ -84,7 +132,7 @@ func (ex *Exec) strLen(v Value) int {
 		if same {
 			return n
 		}
-		return len(ex.concretizeVStr(s))
+		return ex.concreteInt(ex.strLenV(s), types.Typ[types.Int])
 	case *Opaque:
 		panic(ex.unsupported("length of opaque string needed (" + s.why + ")"))
 	}
@@ -102,11 +150,30 @@ func (ex *Exec) strLenV(v Value) Value {
 			}
 		}
 		if !same {
-			var r *Term = ex.ts.Const(uint64(len(s.table[len(s.table)-1])), 64)
-			for i := len(s.table) - 2; i >= 0; i-- {
-				r = ex.ts.Ite(ex.ts.Eq(s.sel, ex.ts.Const(uint64(i), s.sel.bits)), ex.ts.Const(uint64(len(s.table[i])), 64), r)
+			groups := map[int][]int{}
+			var order []int
+			for j, e := range s.table {
+				if _, seen := groups[len(e)]; !seen {
+					order = append(order, len(e))
+				}
+				groups[len(e)] = append(groups[len(e)], j)
 			}
-			return r
+			def := order[0]
+			for _, l := range order {
+				if len(groups[l]) > len(groups[def]) {
+					def = l
+				}
+			}
+			r := ex.ts.Const(uint64(def), 64)
+			for _, l := range order {
+				if l != def {
+					r = ex.ts.Ite(ex.selIn(s.sel, groups[l]), ex.ts.Const(uint64(l), 64), r)
+				}
+			}
+			if len(ex.fixed) > 0 && r.vars.intersects(ex.fixedSet) {
+				r = ex.ts.Subst(r, ex.fixed, ex.fixedSet, map[*Term]*Term{})
+			}
+			return ex.simp(r)
 		}
 	}
 	return int64(ex.strLen(v))
@@ -154,6 +221,25 @@ func (ex *Exec) strConcat(x, y Value) Value {
 	}
 	if o, ok := y.(*Opaque); ok {
 		return o
+	}
+	// a symbolic choice of strings stays a choice under concatenation with concrete text
+	if vx, ok := x.(*VStr); ok {
+		if b, ok := y.(string); ok {
+			t := make([]string, len(vx.table))
+			for i, e := range vx.table {
+				t[i] = e + b
+			}
+			return &VStr{sel: vx.sel, table: t}
+		}
+	}
+	if vy, ok := y.(*VStr); ok {
+		if a, ok := x.(string); ok {
+			t := make([]string, len(vy.table))
+			for i, e := range vy.table {
+				t[i] = a + e
+			}
+			return &VStr{sel: vy.sel, table: t}
+		}
 	}
 	xb, yb := ex.strBytes(x), ex.strBytes(y)
 	r := make([]Value, 0, len(xb)+len(yb))
@@ -222,12 +308,13 @@ func (ex *Exec) vstrEqual(v *VStr, y Value) Value {
 	ts := ex.ts
 	switch y := y.(type) {
 	case string:
-		r := ts.ff
+		var idxs []int
 		for i, t := range v.table {
 			if t == y {
-				r = ts.Or(r, ts.Eq(v.sel, ts.Const(uint64(i), v.sel.bits)))
+				idxs = append(idxs, i)
 			}
 		}
+		r := ex.selIn(v.sel, idxs)
 		if r.isConst() {
 			return r.isTrue()
 		}
